@@ -161,6 +161,25 @@ CHECKS["C06"] = {
     "technique": "property-based testing (rapid) with a reference model, call-log invariants, metamorphic and differential relations",
 }
 
+QUEUE_COMMON = {"verif_qcommon_test.go": "harness/shared/queue_common_test.go"}
+VERIFX = {"internal/verifx/errtree.go": "harness/shared/verifx/errtree.go"}
+
+CHECKS["C01"] = {
+    "title": "queue: exactly one terminal outcome per recipient",
+    "go": GO126,
+    "units": [
+        {"name": "queue", "pkg": "internal/target/queue", "run": "^TestVerifC01",
+         "overlay": dict(QUEUE_COMMON, **{"verif_c01_test.go": "harness/C01/queue_test.go"}), "overlay_abs": VERIFX},
+    ],
+    "quick": {"n": 4000, "shards": 16},
+    "thorough": {"n": 160000, "shards": 16},
+    "level_text": "randomised search (rapid) over recipient sets, downstream kinds and per-attempt fault plans, executed against the real queue on a virtual clock "
+                  "(testing/synctest, production retry timing); oracle = reference model of the documented attribution rules computed from the plan alone.",
+    "level_note": "built with go1.26.8 for testing/synctest; downstream targets are scripted (atomic and per-recipient); duplicate recipients are not generated",
+    "technique": "property-based testing (rapid) with fault-plan generation and a reference model, run on a virtual clock",
+    "assumptions": ["toolchain go1.26.8 (newer than the repository's 1.23.5) is used to get testing/synctest"],
+}
+
 # properties deliberately not claimed: {"property_id":..., "reason":...}
 NOT_APPLICABLE = []
 
